@@ -9,8 +9,11 @@ every optional block present or absent, copies them, walks the REAL heap of orig
             walk of the result, cells the result shares with an operand
 
 Modes:
-  edges <edges.json> <out>     every TLC-enumerated (class, blocks, how, cell path / method, side)
-  random <out>                 seeded random objects and mutation sequences beyond the bounds
+  edges <edges.json> <out> <part> <nparts>   every TLC-enumerated (class, blocks, copy target, cell path /
+                                             method, side) case and operator row
+  cells <cases.json> <out> <part> <nparts>   every mutable cell of the REAL heap of each case (beyond the model's
+                                             two-element lists), copies made by collapse_one
+  random <cases.json> <out> <ops.json>       seeded multi-step mutation sequences; operators with other values
   replay <replay.json> <out>
 """
 from __future__ import annotations
@@ -30,7 +33,7 @@ hlib.require_repo_src()
 from srctools.keyvalues import Keyvalues  # noqa: E402
 from srctools.math import Angle, FrozenAngle, FrozenMatrix, FrozenVec, Matrix, Vec  # noqa: E402
 from srctools.vmf import (  # noqa: E402
-    VMF, DispFlag, DispVertex, Entity, EntityFixup, FixupValue, Output, Side, Solid, TriangleTag, UVAxis, Vec4, VisGroup,
+    VMF, DispFlag, Entity, EntityFixup, FixupValue, Output, Side, Solid, TriangleTag, UVAxis, Vec4, VisGroup,
 )
 
 warnings.simplefilter('ignore', DeprecationWarning)
@@ -184,10 +187,6 @@ def flat_export(obj) -> list:
 
 
 # ---------------------------------------------------------------------------- generators
-def vec(rng, k: int) -> Vec:
-    return Vec(k * 16 + 1, k * 8 - 3, 64 + k)
-
-
 def make_side(vmf: VMF, o: dict, k: int = 0) -> Side:
     side = Side(vmf, [Vec(k, 0, 0), Vec(k + 64, 0, 0), Vec(k + 64, 64, 0)], mat=f'brick/wall{k}', rotation=15.0,
                 lightmap=32, smoothing=3, uaxis=UVAxis(1, 0, 0, 8.0, 0.5), vaxis=UVAxis(0, -1, 0, -4.0, 0.25),
@@ -219,7 +218,7 @@ def make_side(vmf: VMF, o: dict, k: int = 0) -> Side:
 
 def make_solid(vmf: VMF, o: dict) -> Solid:
     so = {'disp': o.get('disp'), 'multi': o.get('multi')}
-    sides = [make_side(vmf, so, 0), make_side(vmf, so, 128), make_side(vmf, {}, 256)]
+    sides = [make_side(vmf, so, 0), make_side(vmf, so, 128)]
     return Solid(vmf, -1, sides, visgroup_ids={2, 5} if o.get('vis') else (), hidden=bool(o.get('hidden')),
                  group_id=7 if o.get('group') else None, vis_shown=not o.get('hidden'), vis_auto_shown=True,
                  is_cordon=bool(o.get('cordon')), editor_color=Vec(0, 180, 90))
@@ -237,7 +236,7 @@ def make_entity(vmf: VMF, o: dict) -> Entity:
     ent = Entity(
         vmf, keys={'classname': 'func_brush' if o.get('brush') else 'info_target', 'targetname': 'Thing', 'origin': '1 2 3',
                    'angles': '0 90 0'},
-        fixup=[FixupValue('$var', 'val', 1), FixupValue('Other', '2', 2)] if o.get('fix') else (),
+        fixup=[FixupValue('var', 'val', 1), FixupValue('Other', '2', 2)] if o.get('fix') else (),
         outputs=[make_output({'inst': True}, 0), make_output({'comma': True}, 1)] if o.get('outs') else (),
         solids=[make_solid(vmf, bo), make_solid(vmf, bo)] if o.get('brush') else (),
         hidden=bool(o.get('hidden')), groups={4} if o.get('group') else (), vis_ids={2, 3} if o.get('vis') else (),
@@ -308,11 +307,10 @@ def mutate_cell(obj) -> str:
         if len(obj) >= 2:
             obj[0], obj[1] = obj[1], obj[0]
             return 'list swap'
-        if obj and hasattr(obj[0], 'copy'):
-            obj.append(obj[0].copy())
-        else:
-            obj.append(Keyvalues('added', 'x') if False else (obj[0] if obj else 0))
-        return 'list append'
+        if obj:
+            obj.append(obj[0])
+            return 'list append'
+        return 'nothing'
     if isinstance(obj, dict):
         k = sorted(obj, key=repr)[0] if obj else 'zz'
         if obj and isinstance(obj[k], str):
@@ -393,7 +391,6 @@ def method_mutation(cls: str, obj, meth: str) -> None:
         else:
             obj.visgroup_ids.add(77)
             obj.hidden = not obj.hidden
-            obj.editor_color.y = 1.0
     else:
         raise ValueError(meth)
 
@@ -431,6 +428,10 @@ class Case:
         """The object sits in an instance file; collapse_one() copies it into another map."""
         from srctools.instancing import Instance, InstanceFile, collapse_one
         src = self.m1
+        for vid in (2, 3, 5):        # the visgroups the generated objects are members of
+            src.vis_tree.append(VisGroup(src, f'vis{vid}', vid, Vec(vid, vid, vid)))
+        if self.cls == 'Solid':
+            o = {k: v for k, v in o.items() if k != 'hidden'}     # collapse_one leaves hidden world brushes out
         obj = build(self.cls, o, src)
         if self.cls == 'Entity':
             src.add_ent(obj)
@@ -505,34 +506,33 @@ def apply_mut(c: Case, mut: dict) -> tuple:
 
 
 def mutate_record(c: Case, muts: list, out: hlib.RecWriter, src: str, stats: dict) -> None:
-    """Apply in-place mutations (all on the same side) and log what the other side looks like."""
+    """Apply in-place mutations (all on the same side) one after the other; one record per mutation
+    with what both sides look like before and after it."""
     side = muts[0]['side']
     other = c.obj if side == 'c' else c.cp
-    mine = c.cp if side == 'c' else c.obj
+    ok = 'o' if side == 'c' else 'c'
     wb = {'o': walk(c.obj)[0], 'c': walk(c.cp)[0]}
     other_exp_before = flat_export(other)
-    whats = []
-    exc = ''
-    for m in muts:
-        w, e = apply_mut(c, m)
-        whats.append(w)
-        exc = exc or e
-    wa = {'o': walk(c.obj)[0], 'c': walk(c.cp)[0]}
-    other_exp_after = flat_export(other)
-    ok = 'o' if side == 'c' else 'c'
-    before = {tuple(e[0]): e for e in wb[ok]}
-    delta = [e for e in wa[ok] if before.get(tuple(e[0])) != e][:4]
-    eb = {tuple(e[0]): e for e in other_exp_before}
-    edelta = [e for e in other_exp_after if eb.get(tuple(e[0])) != e][:4]
-    first = muts[0]
-    out.write({'k': 'mutate', **c.base(), 'mut': first, 'more': muts[1:], 'what': whats, 'exc': exc,
-               'ed': [digest(other_exp_before), digest(other_exp_after)], 'edelta': edelta,
-               'wd': {'o': [digest(wb['o']), digest(wa['o'])], 'c': [digest(wb['c']), digest(wa['c'])]},
-               'delta': delta,
-               'sig': {**c.sig(src), 'action': first['op'] if first['op'] == 'cell' else first['meth'], 'side': side,
-                       'path': norm(first['path']) if first['op'] == 'cell' else first['meth']}})
-    stats['mutations'] = stats.get('mutations', 0) + 1
-    del mine
+    done: list = []
+    for n, m in enumerate(muts):
+        what, exc = apply_mut(c, m)
+        if n and exc == 'NoSuchCell':
+            continue        # an earlier mutation of the sequence removed that cell
+        wa = {'o': walk(c.obj)[0], 'c': walk(c.cp)[0]}
+        other_exp_after = flat_export(other)
+        before = {tuple(e[0]): e for e in wb[ok]}
+        delta = [e for e in wa[ok] if before.get(tuple(e[0])) != e][:4]
+        eb = {tuple(e[0]): e for e in other_exp_before}
+        edelta = [e for e in other_exp_after if eb.get(tuple(e[0])) != e][:4]
+        out.write({'k': 'mutate', **c.base(), 'mut': m, 'earlier': list(done), 'what': what, 'exc': exc,
+                   'ed': [digest(other_exp_before), digest(other_exp_after)], 'edelta': edelta,
+                   'wd': {'o': [digest(wb['o']), digest(wa['o'])], 'c': [digest(wb['c']), digest(wa['c'])]},
+                   'delta': delta,
+                   'sig': {**c.sig(src), 'action': m['op'] if m['op'] == 'cell' else m['meth'], 'side': side,
+                           'path': norm(m['path']) if m['op'] == 'cell' else m['meth']}})
+        stats['mutations'] = stats.get('mutations', 0) + 1
+        done.append(m)
+        wb, other_exp_before = wa, other_exp_after
 
 
 # ---------------------------------------------------------------------------- operators
@@ -557,6 +557,8 @@ def operand(t: str, rng: random.Random, k: int):
         return FrozenMatrix.from_angle(a, b, c)
     if t == 'Keyvalues':
         return Keyvalues(f'Blk{k}', [Keyvalues(f'k{k}', str(x)), Keyvalues('Sub', [Keyvalues('deep', str(y))])])
+    if t == 'KVRoot':
+        return Keyvalues.root(Keyvalues(f'r{k}', str(x)), Keyvalues('Sub', [Keyvalues('deep', str(y))]))
     if t == 'list':
         return [Keyvalues(f'item{k}', str(z)), Keyvalues('blk', [Keyvalues('in', '1')])]
     if t == '':
@@ -605,6 +607,7 @@ def apply_op(f: str, a, b):
 def binop_record(f: str, lt: str, rt: str, rng: random.Random, out: hlib.RecWriter, src: str, stats: dict) -> None:
     a, b = operand(lt, rng, 1), operand(rt, rng, 2)
     ab, bb = value_walk(a), value_walk(b)
+    b_item = b.copy() if isinstance(b, Keyvalues) else None      # the right operand as it was
     exc = ''
     res = None
     try:
@@ -619,22 +622,14 @@ def binop_record(f: str, lt: str, rt: str, rng: random.Random, out: hlib.RecWrit
             if opnd is not None and not isinstance(opnd, IMMUTABLE + (tuple,)):
                 _, oc = walk(opnd)
                 shared += [[name] + s for s in shared_cells(oc, rc)]
-    is_kv = lt == 'Keyvalues'
+    is_kv = lt in ('Keyvalues', 'KVRoot')
     out.write({'k': 'binop', 'f': f, 'lt': lt, 'rt': rt, 'a_before': ab, 'a_after': aa, 'b_before': bb, 'b_after': ba,
                'shared': shared, 'exc': exc,
                'res': kv_flat(res) if is_kv and res is not None else [],
-               'a_flat': kv_flat(operand(lt, random.Random(0), 1)) if False else (kv_flat_before(lt, rt, ab) if is_kv else []),
-               'b_flat': kv_flat_b(rt, bb) if is_kv else [],
+               'a_flat': flat_from_walk(ab) if is_kv else [],
+               'b_flat': (kv_flat([b_item]) if rt == 'Keyvalues' else flat_from_walk(bb)) if is_kv else [],
                'sig': {'kind': 'Operator', 'src': src, 'action': f'{f} {lt} {rt}'}})
     stats['binops'] = stats.get('binops', 0) + 1
-
-
-def kv_flat_before(lt, rt, awalk) -> list:
-    return flat_from_walk(awalk)
-
-
-def kv_flat_b(rt, bwalk) -> list:
-    return flat_from_walk(bwalk)
 
 
 def flat_from_walk(w: list) -> list:
@@ -749,16 +744,11 @@ def run_random(cases_file: str, out: hlib.RecWriter, stats: dict) -> None:
             _, cells = walk(tgt)
             muts.append({'op': 'cell', 'side': side, 'path': rng.choice(sorted(cells.values()))})
         mutate_record(c, muts, out, 'random', stats)
-    ops = json.load(open(cases_file.replace('cases', 'ops'))) if False else None
-    del ops
 
 
 def main() -> None:
     mode = sys.argv[1]
     stats: dict = {}
-    if mode == 'explore':
-        explore()
-        return
     if mode == 'edges':
         out = hlib.RecWriter(sys.argv[3])
         run_edges(sys.argv[2], out, int(sys.argv[4]), int(sys.argv[5]), stats)
@@ -785,7 +775,7 @@ def main() -> None:
             if rec['k'] in ('copy', 'binop'):
                 copy_record(c, out, 'replay', stats)
             else:
-                mutate_record(c, [rec['mut']] + rec.get('more', []), out, 'replay', stats)
+                mutate_record(c, rec.get('earlier', []) + [rec['mut']], out, 'replay', stats)
     else:
         raise SystemExit(2)
     out.close()
